@@ -41,9 +41,34 @@ func c05(r *Report) {
 	// (2) code is dead after any failed attempt
 	code := p.Func(iam, "Wrapper", "handleAccessTokenRequest")
 	c05DeferredBurn(r, code)
-	r.MustReach(MustReach{ID: "C05.code.every-attempt-reaches-handler", Fn: p.Func(iam, "Wrapper", "HandleTokenRequest"),
-		Cond:   CmpCheck("grant_type == authorization_code", token.EQL, FieldV("", "GrantType"), StrV("authorization_code"), true),
+	htr := p.Func(iam, "Wrapper", "HandleTokenRequest")
+	// once the subject check passed, every authorization_code attempt reaches the handler (whose deferred burn kills the code) …
+	r.MustReach(MustReach{ID: "C05.code.every-attempt-reaches-handler", Fn: htr,
+		Cond: Check{Desc: "grant_type == authorization_code (after the subject check passed)", Pass: IsTrue, Values: func(fn *ssa.Function) []ssa.Value {
+			var out []ssa.Value
+			for _, b := range fn.Blocks {
+				for _, in := range b.Instrs {
+					bin, ok := in.(*ssa.BinOp)
+					if !ok || bin.Op != token.EQL || !FieldV("", "GrantType").M(bin.X) && !FieldV("", "GrantType").M(bin.Y) {
+						continue
+					}
+					if s, isS := ConstString(bin.Y); !isS || s != "authorization_code" {
+						if s2, isS2 := ConstString(bin.X); !isS2 || s2 != "authorization_code" {
+							continue
+						}
+					}
+					if FactHolds(b, token.EQL, CallV(Fn(iam, "Wrapper", "subjectExists"), -1), NilV()) {
+						out = append(out, bin)
+					}
+				}
+			}
+			return out
+		}},
 		Target: Fn(iam, "Wrapper", "handleAccessTokenRequest")})
+	// … and when the subject check fails, a presented code is deleted right there (fix: it stayed redeemable)
+	r.MustReach(MustReach{ID: "C05.code.presented-code-is-always-burnt", Fn: htr,
+		Cond:   CmpCheck("request.Body.Code == nil is false", token.EQL, FieldV("", "Code"), NilV(), false),
+		Target: AnyOf(Fn(iam, "Wrapper", "handleAccessTokenRequest"), StoreOp("oauthCodeStore", "Delete"))})
 	// OpenID4VP nonce: burned on the failure path as well
 	vn := p.Func(iam, "Wrapper", "validatePresentationNonce")
 	r.Refuse(Refuse{ID: "C05.nonce.errors-burn", Fn: vn, Cond: CmpCheck("len(errs) > 0", token.LEQ, LenV(AnyV()), IntV(0), false), Effect: SuccessReturn()})
@@ -54,6 +79,29 @@ func c05(r *Report) {
 		c05PutNoOptions(r, st)
 	}
 	c05S2STTL(r)
+	// a DPoP proof is not accepted for longer than its jti is remembered (fix: no bound on the age of iat, so the same proof was
+	// valid again once the 15-minute jti record had expired)
+	vdp := p.Func(iam, "Wrapper", "ValidateDPoPProof")
+	r.Gate(Gate{ID: "C05.dpop.proof-age-bounded", Fn: vdp, Effect: CallEffect(StoreOp("useNonceOnceStore", "Put")),
+		Check: CmpCheck("time.Since(iat) > dpopProofMaxAge is false", token.LSS, p.ConstV(iam, "dpopProofMaxAge"), CallV(Fn("std:time", "", "Since"), -1), false)})
+	r.ArgIs("C05.dpop.proof-age-bounded.age-of-iat", vdp, Fn("std:time", "", "Since"), 0, CallV(Fn("github.com/lestrrat-go/jwx/v2/jwt", "Token", "IssuedAt"), -1), 1)
+	{
+		rule := "TABLE: dpopProofMaxAge < the retention of used jti's (accessTokenValidity)"
+		a, ok1 := p.ConstValue(iam, "dpopProofMaxAge")
+		b, ok2 := p.ConstValue(iam, "accessTokenValidity")
+		var x, y int64
+		fmt.Sscan(a, &x)
+		fmt.Sscan(b, &y)
+		r.Sites++
+		switch {
+		case !ok1 || !ok2:
+			r.Lost("C05.dpop.proof-age-below-jti-retention", rule, "constants not found")
+		case x <= 0 || x >= y:
+			r.Bad("C05.dpop.proof-age-below-jti-retention", rule, "", fmt.Sprintf("dpopProofMaxAge=%dns accessTokenValidity=%dns", x, y))
+		default:
+			r.OK("C05.dpop.proof-age-below-jti-retention", rule, "", fmt.Sprintf("%dns < %dns", x, y), true)
+		}
+	}
 	dp := p.Func(iam, "Wrapper", "ValidateDPoPProof")
 	valid := InstrEffect("Valid: true", func(in ssa.Instruction) bool {
 		st, ok := in.(*ssa.Store)
